@@ -206,7 +206,20 @@ func scenC12(w *vsim.World, spec *vsim.Spec) {
 		w.Infra("%v", err)
 		return
 	}
-	var arr1, arr2 []string
+	var arr1, arr2, arr3 []string
+	// a second read of the SAME hash through the SAME client with different hints (none, or one
+	// 5-character cluster hint): the probe order must follow the locator at hand, not an earlier one
+	locator3 := fmt.Sprintf("%s+%d", hash, len(data))
+	var expect3 []string
+	if len(hints) == 0 || w.Chance("second-read-hinted", 300) {
+		c := fmt.Sprintf("d%04d", rnd.Intn(10000))
+		locator3 += "+K@" + c
+		expect3 = append(expect3, "keep."+c+".arvadosapi.com")
+	}
+	for _, s := range refOrder(hash, svcs) {
+		expect3 = append(expect3, s.host)
+	}
+	secondFirst := w.Chance("second-read-first", 500)
 	wantW := 1 + w.Choose("want", 3)
 	var writable []c12svc
 	for _, s := range svcs {
@@ -216,12 +229,24 @@ func scenC12(w *vsim.World, spec *vsim.Spec) {
 	}
 	done := false
 	w.Spawn("client", func() {
+		if secondFirst {
+			kc.Get(locator3)
+			arr3 = arrivals
+			arrivals = nil
+			vsim.Yield("op", "client")
+		}
 		_, _, _, err := kc.Get(locator)
 		if err == nil {
 			w.Violation("c12/get-succeeded-on-all-miss", "Get returned no error although every service missed")
 			return
 		}
 		arr1 = arrivals
+		if !secondFirst {
+			vsim.Yield("op", "client")
+			arrivals = nil
+			kc.Get(locator3)
+			arr3 = arrivals
+		}
 		vsim.Yield("op", "client")
 		arrivals = nil
 		kc2.Get(fmt.Sprintf("%s+%d", hash, len(data)))
@@ -275,6 +300,11 @@ func scenC12(w *vsim.World, spec *vsim.Spec) {
 		w.Violation("c12/read-order", "retries of a missed GET do not follow the probe order: arrivals %v (expected order %v, Retries=%d)", arr1, expectHosts, retries)
 		return
 	}
+	if len(arr3) < len(expect3) || strings.Join(arr3[:len(expect3)], " ") != strings.Join(expect3, " ") {
+		w.Violation("c12/read-order", "a second GET of the same hash through the same client (locator %s, issued %s the first one, locator %s) contacted %v; expected its own usable hints first, then the rendezvous order: %v", locator3, map[bool]string{true: "before", false: "after"}[secondFirst], locator, arr3, expect3)
+		return
+	}
+	w.Probe("same-hash-read-twice-with-different-hints")
 	if len(hints) > 0 {
 		w.Probe("read-with-hints")
 	}
